@@ -1,26 +1,42 @@
 import PytezosModel.Proofs.InterpProgressComb
+import PytezosModel.Proofs.InterpGuard
+set_option linter.unusedSectionVars false   -- `[Mode]` is a section variable of every lemma here; some do not use it
 /-! **Progress** for the reference semantics of the modelled core: a well-typed program (`Typing.typeInstr`, with
 well-formed set / map literals: `Typing.literalsOk`) run on a well-typed stack (deep value typing `StackWF` of C02, and
 every set / map strictly sorted: `GoodStack`) is never stuck — for every fuel bound it yields a stack, a FAILWITH value,
 a runtime failure, or runs out of fuel.  Proved together with the preservation of `GoodStack` (the preservation of the
 types is C02's `sound_all`), by induction on the fuel. -/
 namespace Interp
+variable [Mode]
 open Typing
+
+/-- a result of the (possibly guarded) reference evaluator is a result of the plain one -/
+theorem eval_ok_plain {g : Bool} {env : Env} {f : Nat} {i : Instr} {st st' : List Val}
+    (h : Spec.eval g env f i st = .ok st') : Spec.eval false env f i st = .ok st' := by
+  cases g with
+  | false => exact h
+  | true => rw [(all_guard env f).1 i st (by rw [h]; intro e; cases e)]; exact h
+
+theorem evalMap_ok_plain {g : Bool} {env : Env} {f : Nat} {b : Instr} {m : Bool} {xs st : List Val} {p : List Val × List Val}
+    (h : Spec.evalMap g env f b m xs st = .ok p) : Spec.evalMap false env f b m xs st = .ok p := by
+  cases g with
+  | false => exact h
+  | true => rw [(all_guard env f).2.2.2 b m xs st (by rw [h]; intro e; cases e)]; exact h
 
 /-- all three facts about a result stack -/
 def StackOk (tr : TRes) (st' : List Val) : Prop := GoodStack st' ∧ StackWF st' ∧ tr = .ok (st'.map typeOf)
 
 def SafeE (env : Env) (f : Nat) : Prop :=
-  ∀ i st tr, StackWF st → GoodStack st → literalsOk i = true → typeInstr false i (st.map typeOf) = some tr →
-    (Spec.eval false env f i st).Safe GoodStack
+  ∀ i st tr, StackWF st → GoodStack st → literalsOk i = true → typeInstr Mode.strict i (st.map typeOf) = some tr →
+    (Spec.eval Mode.guard env f i st).Safe GoodStack
 
 def SafeS (env : Env) (f : Nat) : Prop :=
-  ∀ is st tr, StackWF st → GoodStack st → literalsOks is = true → typeSeq false is (st.map typeOf) = some tr →
-    (Spec.evalSeq false env f is st).Safe GoodStack
+  ∀ is st tr, StackWF st → GoodStack st → literalsOks is = true → typeSeq Mode.strict is (st.map typeOf) = some tr →
+    (Spec.evalSeq Mode.guard env f is st).Safe GoodStack
 
 def SafeI (env : Env) (f : Nat) : Prop :=
   ∀ body xs st t, (∀ x ∈ xs, WF x ∧ typeOf x = t) → GoodStack xs → StackWF st → GoodStack st → literalsOk body = true →
-    BodyKeeps body t (st.map typeOf) → (Spec.evalIter false env f body xs st).Safe GoodStack
+    BodyKeeps body t (st.map typeOf) → (Spec.evalIter Mode.guard env f body xs st).Safe GoodStack
 
 /-- MAP over a map keeps the keys: the collected items are the bindings of the source with new values -/
 def KeysKept (isMap : Bool) (xs ys : List Val) : Prop :=
@@ -28,15 +44,15 @@ def KeysKept (isMap : Bool) (xs ys : List Val) : Prop :=
 
 def SafeM (env : Env) (f : Nat) : Prop :=
   ∀ body isMap xs st t t', (∀ x ∈ xs, WF x ∧ typeOf x = t) → GoodStack xs → StackWF st → GoodStack st →
-    literalsOk body = true → typeInstr false body (t :: st.map typeOf) = some (.ok (t' :: st.map typeOf)) →
+    literalsOk body = true → typeInstr Mode.strict body (t :: st.map typeOf) = some (.ok (t' :: st.map typeOf)) →
     (isMap = true → ∃ k v, t = .pair k v) →
-    (Spec.evalMap false env f body isMap xs st).Safe fun p => GoodStack p.1 ∧ GoodStack p.2 ∧ KeysKept isMap xs p.1
+    (Spec.evalMap Mode.guard env f body isMap xs st).Safe fun p => GoodStack p.1 ∧ GoodStack p.2 ∧ KeysKept isMap xs p.1
 
 /-- safety together with C02's type preservation -/
 theorem SafeE.ok {env : Env} {f : Nat} (hE : SafeE env f) (i : Instr) (st : List Val) (tr : TRes) (hw : StackWF st)
-    (hg : GoodStack st) (hl : literalsOk i = true) (hty : typeInstr false i (st.map typeOf) = some tr) :
-    (Spec.eval false env f i st).Safe (StackOk tr) :=
-  (hE i st tr hw hg hl hty).mono fun st' heq hgood => ⟨hgood, (sound_all env f).1 i st st' tr hw heq hty⟩
+    (hg : GoodStack st) (hl : literalsOk i = true) (hty : typeInstr Mode.strict i (st.map typeOf) = some tr) :
+    (Spec.eval Mode.guard env f i st).Safe (StackOk tr) :=
+  (hE i st tr hw hg hl hty).mono fun st' heq hgood => ⟨hgood, (sound_all env f).1 i st st' tr hw (eval_ok_plain heq) hty⟩
 
 section
 variable (env : Env) (f : Nat) (hE : SafeE env f)
@@ -56,7 +72,7 @@ theorem safeS_succ (hS : SafeS env f) : SafeS env (f + 1) := by
       cases f <;> simp [Spec.evalSeq, h1.1]
     | cons j js =>
       simp only [typeSeq] at hty
-      cases hti : typeInstr false i (st.map typeOf) with
+      cases hti : typeInstr Mode.strict i (st.map typeOf) with
       | none => simp [hti] at hty
       | some tr1 =>
         refine (hE.ok i st tr1 hw hg hl.1 hti).bind fun st1 _ h1 => ?_
@@ -103,7 +119,7 @@ theorem safeM_succ (hM : SafeM env f) : SafeM env (f + 1) := by
       simp only [List.map_cons, List.cons.injEq] at e1
       rw [goodStack_cons] at g1
       rw [stackWF_cons] at w1
-      have hb' : typeInstr false body (t :: st1.map typeOf) = some (.ok (t' :: st1.map typeOf)) := by
+      have hb' : typeInstr Mode.strict body (t :: st1.map typeOf) = some (.ok (t' :: st1.map typeOf)) := by
         rw [← e1.2]; exact hb
       have hrec := hM body isMap xs st1 t t' (fun z hz => hxs z (by simp [hz])) hgx.2 w1.2 g1.2 hl hb' hk
       simp only
@@ -135,6 +151,7 @@ end
 end Interp
 
 namespace Interp
+variable [Mode]
 open Typing
 
 /-- MAP over a map keeps it well-formed: same keys in the same order -/
@@ -159,11 +176,11 @@ theorem join_some {a b : Option TRes} {tr : TRes}
 
 /-- the type of a loop / ITER body: it keeps the rest of the stack, or always fails -/
 theorem loop_body_ty {body : Instr} {S0 S1 R : List Ty} {tr : TRes}
-    (h : (match typeInstr false body S0 with
+    (h : (match typeInstr Mode.strict body S0 with
           | some (.ok s') => if s' = S1 then some (.ok R) else none
           | some .failed => some (.ok R)
           | none => none) = some tr) :
-    typeInstr false body S0 = some (.ok S1) ∨ typeInstr false body S0 = some .failed := by
+    typeInstr Mode.strict body S0 = some (.ok S1) ∨ typeInstr Mode.strict body S0 = some .failed := by
   split at h
   · rename_i s' heq
     split at h
@@ -179,7 +196,7 @@ include hE hS hI hM
 theorem safeE_succ : SafeE env (f + 1) := by
   intro i st tr hw hg hl hty
   by_cases hc : isControl i = false
-  · rw [spec_eval_simple false env f i hc st]
+  · rw [spec_eval_simple Mode.guard env f i hc st]
     by_cases hlit : isLiteral i = false
     · rw [typeInstr_simple i hc hlit] at hty
       exact step_safe env i st tr hw hg hty
@@ -205,7 +222,7 @@ theorem safeE_succ : SafeE env (f + 1) := by
     rw [goodStack_cons] at hg
     simp only [literalsOk] at hl
     simp only [List.map_cons, typeInstr] at hty
-    cases hb : typeInstr false body (st.map typeOf) with
+    cases hb : typeInstr Mode.strict body (st.map typeOf) with
     | none => simp [hb] at hty
     | some tb =>
       simp only [Spec.eval]
@@ -215,7 +232,7 @@ theorem safeE_succ : SafeE env (f + 1) := by
     simp only [typeInstr, List.length_map] at hty
     split at hty
     · rename_i hn
-      cases hb : typeInstr false body ((st.map typeOf).drop n) with
+      cases hb : typeInstr Mode.strict body ((st.map typeOf).drop n) with
       | none => simp [hb] at hty
       | some tb =>
         simp only [Spec.eval, hn, if_true]
@@ -397,7 +414,7 @@ theorem safeE_succ : SafeE env (f + 1) := by
       simp only [typeInstr] at hty
       obtain ⟨xs, rfl, hxs⟩ := canon_list hw.1 htc
       have hgx : GoodStack xs := by simpa using hg.1
-      cases hb : typeInstr false body (t :: st.map typeOf) with
+      cases hb : typeInstr Mode.strict body (t :: st.map typeOf) with
       | none => simp [hb] at hty
       | some tb =>
         simp only [hb] at hty
@@ -407,18 +424,27 @@ theorem safeE_succ : SafeE env (f + 1) := by
           cases sb with
           | nil => simp at hty
           | cons t' s' =>
-            simp only [Bool.not_false, Bool.true_or, and_true] at hty
+            dsimp only at hty
             split at hty
-            · rename_i hs'
+            · rename_i hs''
+              obtain ⟨hs', hkeep⟩ := hs''
               subst hs'
+              have hb0 := typeInstr_lax hb
+              -- the guard never fires: in guard mode the typing is strict, so the body keeps the element type
+              have hoff : (Mode.guard && t' != t) = false := by
+                cases hgd : Mode.guard with
+                | false => rfl
+                | true =>
+                  rw [Mode.guard_strict hgd] at hkeep
+                  simpa using hkeep
               simp only [Spec.eval]
               refine (hM body false xs st t t' hxs hgx hw.2 hg.2 hl hb (by simp)).bind fun p heq hp => ?_
               obtain ⟨ys, st1⟩ := p
-              obtain ⟨g1, _, _, _⟩ := (sound_all env f).2.2.2 body false xs st ys st1 t t' hxs hw.2 hb (by simp) heq
+              obtain ⟨g1, _, _, _⟩ := (sound_all env f).2.2.2 body false xs st ys st1 t t' hxs hw.2 hb (by simp) (evalMap_ok_plain heq)
               simp only
-              have hlo : (Spec.listOf false body t st ys).Safe (fun r => litOk r = true) := by
+              have hlo : (Spec.listOf Mode.guard body t st ys).Safe (fun r => litOk r = true) := by
                 cases ys with
-                | nil => simp [Spec.listOf, Spec.mapOutTy, hb, goodStack_nil]
+                | nil => simp [Spec.listOf, Spec.mapOutTy, hb0, hoff, goodStack_nil]
                 | cons y rest =>
                   have hall : ∀ z ∈ rest, typeOf z = typeOf y := fun z hz => by
                     rw [(g1 z (by simp [hz])).2, (g1 y (by simp)).2]
@@ -433,7 +459,7 @@ theorem safeE_succ : SafeE env (f + 1) := by
       simp only [typeInstr] at hty
       obtain ⟨xs, rfl, hxs⟩ := canon_map hw.1 htc
       obtain ⟨hgm, hgx⟩ := (litOk_map _ _ _).mp hg.1
-      cases hb : typeInstr false body (.pair k v :: st.map typeOf) with
+      cases hb : typeInstr Mode.strict body (.pair k v :: st.map typeOf) with
       | none => simp [hb] at hty
       | some tb =>
         simp only [hb] at hty
@@ -443,20 +469,29 @@ theorem safeE_succ : SafeE env (f + 1) := by
           cases sb with
           | nil => simp at hty
           | cons t' s' =>
-            simp only [Bool.not_false, Bool.true_or, and_true] at hty
+            dsimp only at hty
             split at hty
-            · rename_i hs'
+            · rename_i hs''
+              obtain ⟨hs', hkeep⟩ := hs''
               subst hs'
+              have hb0 := typeInstr_lax hb
+              -- the guard never fires: in guard mode the typing is strict, so the body keeps the element type
+              have hoff : (Mode.guard && t' != v) = false := by
+                cases hgd : Mode.guard with
+                | false => rfl
+                | true =>
+                  rw [Mode.guard_strict hgd] at hkeep
+                  simpa using hkeep
               simp only [Spec.eval]
               refine (hM body true xs st (.pair k v) t' hxs hgx hw.2 hg.2 hl hb (fun _ => ⟨k, v, rfl⟩)).bind fun p heq hp => ?_
               obtain ⟨ys, st1⟩ := p
               obtain ⟨g1, _, _, _⟩ :=
-                (sound_all env f).2.2.2 body true xs st ys st1 (.pair k v) t' hxs hw.2 hb (fun _ => ⟨k, v, rfl⟩) heq
+                (sound_all env f).2.2.2 body true xs st ys st1 (.pair k v) t' hxs hw.2 hb (fun _ => ⟨k, v, rfl⟩) (evalMap_ok_plain heq)
               obtain ⟨hkeys, hpairs⟩ := hp.2.2 rfl
               simp only
-              have hlo : (Spec.mapOf false body k v st ys).Safe (fun r => litOk r = true) := by
+              have hlo : (Spec.mapOf Mode.guard body k v st ys).Safe (fun r => litOk r = true) := by
                 cases ys with
-                | nil => simp [Spec.mapOf, Spec.mapOutTy, hb, litOk_map, goodStack_nil, goodMap, strictSorted]
+                | nil => simp [Spec.mapOf, Spec.mapOutTy, hb0, hoff, litOk_map, goodStack_nil, goodMap, strictSorted]
                 | cons y rest =>
                   obtain ⟨a, b, rfl⟩ := hpairs y (by simp)
                   have hy := (g1 _ (List.mem_cons_self)).2
@@ -508,6 +543,7 @@ end
 end Interp
 
 namespace Interp
+variable [Mode]
 open Typing
 
 theorem safe_all (env : Env) : ∀ f, SafeE env f ∧ SafeS env f ∧ SafeI env f ∧ SafeM env f
@@ -529,25 +565,26 @@ def WellFormed (v : Val) : Prop := WF v ∧ litOk v = true
 semantics yields a stack, a FAILWITH value, a runtime failure (mutez overflow, shift by more than 256 bits), or runs out
 of fuel.  (`tr` is the static result: `.ok τs`, or `.failed` for a program that always fails.) -/
 theorem progress (env : Env) (fuel : Nat) (i : Instr) (st : List Val) (tr : TRes)
-    (hty : typeInstr false i (st.map typeOf) = some tr) (hwf : ∀ v ∈ st, WellFormed v) (hlit : literalsOk i = true) :
-    Spec.eval false env fuel i st ≠ .stuck :=
+    (hty : typeInstr Mode.strict i (st.map typeOf) = some tr) (hwf : ∀ v ∈ st, WellFormed v) (hlit : literalsOk i = true) :
+    Spec.eval Mode.guard env fuel i st ≠ .stuck :=
   ((safe_all env fuel).1 i st tr (fun v hv => (hwf v hv).1) (fun v hv => (hwf v hv).2) hlit hty).ne_stuck
 
 /-- the invariant is preserved: the values a well-typed program leaves on the stack are well-typed values again (the
 typing half is C02's `preservation`) -/
 theorem wellFormed_preserved (env : Env) (fuel : Nat) (i : Instr) (st st' : List Val) (tr : TRes)
-    (hty : typeInstr false i (st.map typeOf) = some tr) (hwf : ∀ v ∈ st, WellFormed v) (hlit : literalsOk i = true)
-    (hev : Spec.eval false env fuel i st = .ok st') : ∀ v ∈ st', WellFormed v := by
+    (hty : typeInstr Mode.strict i (st.map typeOf) = some tr) (hwf : ∀ v ∈ st, WellFormed v) (hlit : literalsOk i = true)
+    (hev : Spec.eval Mode.guard env fuel i st = .ok st') : ∀ v ∈ st', WellFormed v := by
   have hw : StackWF st := fun v hv => (hwf v hv).1
   have hg : GoodStack st := fun v hv => (hwf v hv).2
   have h1 := ((safe_all env fuel).1 i st tr hw hg hlit hty).of_ok hev
-  have h2 := ((sound_all env fuel).1 i st st' tr hw hev hty).1
+  have h2 := ((sound_all env fuel).1 i st st' tr hw (eval_ok_plain hev) hty).1
   exact fun v hv => ⟨h2 v hv, h1 v hv⟩
 
-/-- the unguarded reference semantics never answers `offguard` -/
-theorem eval_false_ne_offguard (env : Env) (fuel : Nat) (i : Instr) (st : List Val) (tr : TRes)
-    (hty : typeInstr false i (st.map typeOf) = some tr) (hwf : ∀ v ∈ st, WellFormed v) (hlit : literalsOk i = true) :
-    Spec.eval false env fuel i st ≠ .offguard :=
+/-- the reference semantics of the mode never answers `offguard`: trivially the unguarded one, and — the content of the
+strict mode — the *guarded* one on strictly typed programs -/
+theorem eval_ne_offguard (env : Env) (fuel : Nat) (i : Instr) (st : List Val) (tr : TRes)
+    (hty : typeInstr Mode.strict i (st.map typeOf) = some tr) (hwf : ∀ v ∈ st, WellFormed v) (hlit : literalsOk i = true) :
+    Spec.eval Mode.guard env fuel i st ≠ .offguard :=
   ((safe_all env fuel).1 i st tr (fun v hv => (hwf v hv).1) (fun v hv => (hwf v hv).2) hlit hty).ne_offguard
 
 end Interp
